@@ -4,13 +4,13 @@ import "github.com/tikv/client-go/v2/oracle"
 
 // White-box accessors for the C13 harness (read-only).
 
-// VerifLastTS returns the cached (low-resolution) timestamp of the global scope.
-func VerifLastTS(o oracle.Oracle) (uint64, bool) {
+// VerifLastTS returns the cached (low-resolution) timestamp of a transaction scope.
+func VerifLastTS(o oracle.Oracle, scope string) (uint64, bool) {
 	p, ok := o.(*pdOracle)
 	if !ok {
 		return 0, false
 	}
-	return p.getLastTS(oracle.GlobalTxnScope)
+	return p.getLastTS(scope)
 }
 
 // VerifAdaptive returns (configured interval ns, adaptive interval ns, adaptive state name).
